@@ -71,7 +71,7 @@ func (fe *FE) ownCtx(st *State) *Ctx {
 	}
 	for _, p := range fe.Fn.FreeVars {
 		if v, ok := st.vals[p]; ok {
-			c.params[p.Name()] = v
+			c.params[p.Name()] = fe.cellVal(v, p.Type())
 		}
 	}
 	return c
@@ -209,6 +209,9 @@ func (fe *FE) Run() {
 	}
 	for _, p := range fn.FreeVars {
 		st.vals[p] = mk(p.Name(), p.Type())
+		if v := st.vals[p]; v.Kind == VScalar && v.Sort == SInt {
+			st.assume("(> " + v.T + " 0)") // a captured variable's cell always exists
+		}
 	}
 	// lock/waitgroup ghost state exists from the start
 	ctx := fe.ownCtx(st)
@@ -239,6 +242,14 @@ func (fe *FE) Run() {
 	for _, g := range fe.C.Ghosts {
 		ctx.what = "ghost " + g.Name
 		v := ctx.eval(g.Init)
+		if g.Type != "" {
+			if gt := fe.V.resolveType(g.Type, fn.Pkg.Pkg); gt != nil {
+				if v.Sort == "lit" {
+					v = ctx.coerceLit(v, fe.S.scalarSort(gt))
+				}
+				v.GoT = gt
+			}
+		}
 		if v.Sort == "lit" {
 			v = ctx.coerceLit(v, SInt)
 		}
@@ -321,6 +332,7 @@ func (fe *FE) runBlock(st *State, b, pred *ssa.BasicBlock) {
 		fe.checkInvariants(st, li, "inv-entry")
 		fe.havocLoop(st, li)
 		st.open[b] = true
+		st.curLoop = b
 		ctx := fe.ownCtx(st)
 		ctx.head = b
 		for i, c := range li.inv {
@@ -592,7 +604,11 @@ func (fe *FE) execInstr(st *State, ins ssa.Instruction, b *ssa.BasicBlock, idx i
 					if v.Kind == VLoc {
 						st.names[id.Name] = v
 					} else if v.Kind == VScalar {
-						st.names[id.Name] = Val{Kind: VLoc, Loc: fe.asLoc(v, x.X.Type()), GoT: x.X.Type()}
+						if et := derefType(x.X.Type()); et != nil && isStructType(et) {
+							st.names[id.Name] = v
+						} else {
+							st.names[id.Name] = Val{Kind: VLoc, Loc: fe.asLoc(v, x.X.Type()), GoT: x.X.Type()}
+						}
 					}
 				} else {
 					st.names[id.Name] = v
@@ -830,7 +846,13 @@ func (fe *FE) zeroRow(st *State, base string, et types.Type, arr string) {
 		sortA := arraySort([]string{SInt, SInt}, c.sort)
 		h := fe.heapTerm(st, name, sortA)
 		n := fe.newConst(st, name, sortA)
-		st.assume(eq(n, "(store "+h+" "+arr+" ((as const (Array Int "+c.sort+")) "+fe.zeroTerm(c.sort)+"))"))
+		zrow := "((as const (Array Int " + c.sort + ")) " + fe.zeroTerm(c.sort) + ")"
+		if c.sort == SStr || c.sort == SRV {
+			// cvc5 accepts only values in constant arrays
+			zrow = fe.newConst(st, "zrow", "(Array Int "+c.sort+")")
+			st.assume(fmt.Sprintf("(forall ((i Int)) (! (= (select %s i) %s) :pattern ((select %s i))))", zrow, fe.zeroTerm(c.sort), zrow))
+		}
+		st.assume(eq(n, "(store "+h+" "+arr+" "+zrow+")"))
 		st.heap[name] = n
 	}
 }
@@ -1302,4 +1324,34 @@ func (fe *FE) floatInRange(f, fsort string, w int, signed bool) string {
 		return and("(not (fp.isNaN "+f+"))", "(fp.geq "+tr+" "+lo+")", "(fp.lt "+tr+" "+lit(pow(w-1))+")")
 	}
 	return and("(not (fp.isNaN "+f+"))", "(fp.geq "+tr+" "+lit("0.0")+")", "(fp.lt "+tr+" "+lit(pow(w))+")")
+}
+
+// cellVal: a captured variable is a pointer to its cell; contracts name the variable, i.e. the cell's contents.
+func (fe *FE) cellVal(v Val, ptrT types.Type) Val {
+	if v.Kind == VLoc {
+		return v
+	}
+	if v.Kind == VScalar && derefType(ptrT) != nil && !isStructType(derefType(ptrT)) {
+		return Val{Kind: VLoc, Loc: fe.asLoc(v, ptrT), GoT: ptrT}
+	}
+	return v
+}
+
+// localType finds the type of a local variable of the verified function by name.
+func (fe *FE) localType(name string) types.Type {
+	if fe.locals == nil {
+		fe.locals = map[string]types.Type{}
+		for _, b := range fe.Fn.Blocks {
+			for _, ins := range b.Instrs {
+				if d, ok := ins.(*ssa.DebugRef); ok {
+					if v, ok := d.Object().(*types.Var); ok {
+						if _, seen := fe.locals[v.Name()]; !seen {
+							fe.locals[v.Name()] = v.Type()
+						}
+					}
+				}
+			}
+		}
+	}
+	return fe.locals[name]
 }
